@@ -69,3 +69,7 @@ def collect(P):
     _pin_subst(P, "OPT_DENSE_BLOCK_THRESHOLD", oi, r"const DENSE_BLOCK_THRESHOLD: u32 =\s*([^;]+);",
                [("set_block::DENSE_BLOCK_NUM_BYTES / std::mem::size_of::<u16>() as u32",
                  "%d / 2" % P.env.get("OPT_DENSE_BLOCK_NUM_BYTES", 0))])
+    # bit-packed range lookup: the guard `|| *range.end() < stats.min_value` of
+    # transform_range_before_linear_transformation (fix of F81).  1 iff present; the model follows it.
+    P.flag("COLUMNAR_RANGE_BELOW_MIN_GUARD", "columnar/src/column_values/u64_based/bitpacked.rs",
+           r"fn transform_range_before_linear_transformation\([^)]*\)[^{]*\{[^}]*?if range\.is_empty\(\)\s*\|\|\s*\*range\.end\(\)\s*<\s*stats\.min_value\s*\{\s*return None;")
